@@ -47,7 +47,7 @@ struct E4 : Engine {
 		J ops = J::arr();
 		for(int i=0;i<nops;i++){ J o = J::obj(); o["c"] = (int)r.below(nc); o["t"] = (int)r.below(2); unsigned y = r.below(100);
 			if(y < 34){ o["op"] = "store"; o["k"] = koff + (int)r.below(nkeys); J tr = J::arr(); if(nul_trig && r.below(3) == 0) tr.push(8); int nt = ntrig ? r.below(3) : 0; for(int k=0;k<nt;k++) tr.push((int)r.below(ntrig)); if(r.below(8) == 0) tr.push(100 + koff + (int)r.below(nkeys)); if(r.below(8) == 0) tr.push((r.below(3) ? 200 : 300) + koff + (int)r.below(nkeys)); if(r.below(25) == 0) for(int k=0;k<30;k++) tr.push(50+k); if(r.below(30) == 0) tr.push(7); o["trig"] = tr; if(i > 0 && r.below(6) == 0) o["dup"] = (int)r.below(i);
-				o["dl"] = r.below(10) == 0 ? -1 : r.below(12) == 0 ? 1000000000 : 5 + (int)r.below(100); unsigned z = r.below(10); o["len"] = z == 0 ? 0 : z < 7 ? (int)r.below(60) : z < 9 ? (int)r.below(p.geti("chan_cap") < 200 ? 300 : 4000) : (int)r.below(p.geti("chan_cap") < 200 ? 600 : thorough ? 100000 : 30000); o["fill"] = (int)r.below(3); if(r.below(5) == 0) o["fill"] = 3 + koff + (int)r.below(nkeys); }
+				o["dl"] = r.below(10) == 0 ? -1 : r.below(12) == 0 ? 1000000000 : 5 + (int)r.below(100); unsigned z = r.below(10); o["len"] = z == 0 ? 0 : z < 7 ? (int)r.below(60) : z < 9 ? (int)r.below(p.geti("chan_cap") < 200 ? 300 : 4000) : (int)r.below(p.geti("chan_cap") < 200 ? 600 : thorough ? 100000 : 30000); if(p.geti("chan_cap") >= 200 && r.below(30) == 0) o["len"] = 65537 + (int)r.below(80000);   /* larger than any channel: the server's reply to a fetch of it leaves in several pieces */ o["fill"] = (int)r.below(3); if(r.below(5) == 0) o["fill"] = 3 + koff + (int)r.below(nkeys); }
 			else if(y < 76){ o["op"] = "fetch"; o["k"] = koff + (int)r.below(nkeys); o["how"] = (int)r.below(4); }
 			else if(y < 86){ o["op"] = "rise"; o["tr"] = nul_trig && r.below(2) ? 8 : r.below(3) == 0 ? (r.below(3) ? 100 : r.below(3) ? 200 : 300) + koff + (int)r.below(nkeys) : (ntrig ? (int)r.below(ntrig) : 100); }
 			else if(y < 90){ o["op"] = "clear"; }
